@@ -22,3 +22,11 @@ pub unsafe extern "C" fn getenv(name: *const c_char) -> *mut c_char {
     }
     core::ptr::null_mut()
 }
+
+/// std's RandomState seeds itself with getrandom(); concrete zeros keep the
+/// hash function a fixed function of the (symbolic) keys.
+#[no_mangle]
+pub unsafe extern "C" fn getrandom(buf: *mut libc::c_void, len: libc::size_t, _flags: libc::c_uint) -> libc::ssize_t {
+    core::ptr::write_bytes(buf as *mut u8, 0, len);
+    len as libc::ssize_t
+}
